@@ -31,6 +31,7 @@ def gen_stallwatch(r, tier):
             lo, hi = 0, 255
         rpm0 = int(avg0)
         toks.append(f"rpm={rpm0}")
+        case_idx = len(ops)
         ops.append("#case stallwatch")
         ops.append("w.new " + " ".join(toks))
         now = 1000
@@ -43,7 +44,10 @@ def gen_stallwatch(r, tier):
         # the fan stalls: the harness plays the device (rpm 0 unless the register exceeds the threshold)
         ops.append("w.dev rpm=0")
         budget = bound_polls(kind, n) + 2 * (hi - lo) + 20 + 2 * (hi - lo)
+        capped = budget > 1400
         budget = min(budget, 1400)
+        if not capped:
+            ops[case_idx] = "#case stallwatch full=1"
         for _ in range(budget):
             ops.append("w.poll")
             now += 200_000_000
@@ -106,6 +110,12 @@ class C10(Prop):
                     if first_raise is not None and polls - last_raise_poll > 3 + (B if kind == "hwmon" and n > 1 else 0):
                         out.append(viol(f"raises stopped: {polls - last_raise_poll} polls since the last raise while the fan still reports 0 RPM", cops, cgo, upto=i))
                         break
+                    if int(post["off"]) > int(post["max"]) - int(post["min"]):
+                        out.append(viol(f"the minimum was raised {post['off']} times, more often than the range {post['min']}..{post['max']} has steps", cops, cgo, upto=i))
+                        break
+            else:
+                if stalled_at is not None and not ended and "full=1" in cops[0]:
+                    out.append(viol("the fan reported 0 RPM to the end of a run long enough to reach the maximum, but the stall was never reported", cops, cgo))
         return out
 
     def nontrivial(self, name, ops, go):
